@@ -360,9 +360,9 @@ pub fn run(mut run: Run) -> ! {
     run.assume("compiled models compared exactly (all numbers round-trip through Rust's shortest decimal rendering); variables with an all-zero column are projected away because the compiler drops unused variables");
     let quick = run.quick();
     // leg 1 + leg 2 on compiled models from expression sources
-    let total = expr_sources(quick, u64::MAX).0;
+    let total = expr_sources(false, u64::MAX).0;
     run.family("M1-expression-programs", total, move |i, l| {
-        let (_, src, sig) = expr_sources(quick, i);
+        let (_, src, sig) = expr_sources(false, i);
         let Some(src) = src else { return };
         check_model_rendering(&src, &sig, l);
         if let Ok(Ok((_, Ok(lm)))) = crate::core::catch(|| compile_text(&src)) {
